@@ -562,9 +562,46 @@ def check_sealing_conversions(ctx, F):
         ctx.unresolved('R7', role, anchors.RENC, 'only %d From<RangeEncoder> conversions found (2 confirmed by reading)' % n, key=key0 + 'floor')
 
 
+def check_window_padding(ctx, F):
+    """When the data ends before the decoder's window is full, the words that were read become the most significant words of
+    the window and zeros stand in for the rest - what the encoder's sealing relies on.  How far the assembled value is
+    shifted is therefore a function of *how many* words were read, never of their value (a first word that happens to be zero
+    is a word like any other)."""
+    reader, _ = anchors.window_reader(F)
+    key = 'R4/window-padding-by-count'
+    role = 'a short window is padded by the number of missing words, not by the value read'
+    if reader is None:
+        return ctx.unresolved('R4', role, 'stream::queue', 'the routine the decoder fills its window with could not be resolved', key=key)
+    try:
+        _, paths = rules.evaluate(reader)
+    except sym.TooManyPaths:
+        return ctx.unresolved('R4', role, reader.defpath, 'too many paths', key=key)
+    ctx.touch(reader)
+    loopvars = lambda t: {x[2] for x in sym.subterms(t) if isinstance(x, tuple) and len(x) == 3 and x[0] == 'loop'}
+    is_word = lambda x: isinstance(x, tuple) and x and x[0] == 'call' and str(x[1]).endswith('ReadWords::read')
+    n = 0
+    bad = None
+    for r in paths or []:
+        terms = ([r.ret] if r.ret is not None else []) + [e['value'] for e in r.events if e['kind'] == 'write']
+        for t in terms:
+            for x in sym.subterms(t):
+                if isinstance(x, tuple) and x and x[0] == 'bin' and str(x[1]).split('.')[0] == 'Shl':
+                    n += 1
+                    shared = loopvars(x[2]) & loopvars(x[3])
+                    if shared or sym.contains(x[3], is_word):
+                        bad = bad or ('the shift amount `%s` depends on the value being assembled: a window whose first word is zero is moved further than one whose first word is not, so the decoder and the encoder disagree on where the words sit' % sym.show(x[3])[:100])
+    if bad:
+        ctx.bad('R4', role, reader.defpath, bad, key=key, loc=rules.loc(reader))
+    elif n:
+        ctx.ok('R4', role, reader.defpath, '%d shift(s); every shift amount is a function of type constants and the word counter only' % n, key=key)
+    else:
+        ctx.unresolved('R4', role, reader.defpath, 'no shift found in the window reader', key=key)
+
+
 def run(ctx):
     F = ctx.F
     check_reset(ctx, F)
+    check_window_padding(ctx, F)
     check_wrapping_distance(ctx, F)
     check_sealing_conversions(ctx, F)
     check_raw_parts_identity(ctx, F)
